@@ -27,6 +27,7 @@ func specC02() *propertySpec {
 			{"C02-R5", "classification: findBug counts nil as valid, invalidData as invalid and returns every other error (shared with C09-R2); checkFuzz maps nil/invalid/other to pass/Skip/Fatal (C13-R2)", func(r *Run) { ruleC09R2(r); ruleC13R2(r) }},
 			{"C02-R6", "verdict-fails-TB: doCheck's failure returns carry findBug's error; checkTB fails the TB on every non-pass path and calls FailNow (shared with C09-R3/R4)", func(r *Run) { ruleC02R6(r); ruleC09R3(r); ruleC09R4(r) }},
 			{"C02-R9", "replayed-falsification-is-kept: the fail-file phase of doCheck returns whenever one of checkFailFile's two errors is non-nil (a fail file that fails once and then passes is reported as flaky, not dropped) and moves on only when both are nil (shared with C06-R5)", ruleC06R5},
+			{"C02-R10", "a-replayed-failure-is-not-ignored: checkFailFile's ignore returns (nil, nil, nil) are reachable from an execution of the replayed test case only on the edge where that execution passed or was invalid; an execution in a loop that contains an ignore return reaches it again after an iteration in which it failed", ruleC02R10},
 			{"C02-R8", "panic-survives-cleanup: a falsifying panic of the property cannot be replaced by a skip raised from a cleanup callback before the verdict is formed", ruleC02R8},
 			{"C02-R7", "cross-goroutine: T.failed is only accessed under T.mu (shared with C14-R1)", func(r *Run) { ruleC14R1(r, map[string]bool{"failed": true}) }},
 		},
@@ -707,6 +708,43 @@ func ruleC02R6(r *Run) {
 				}
 			}
 		}
+		if !ok {
+			// sameError written out: message and traceback of the two errors compared directly
+			isFB := func(v ssa.Value) bool { return p.isResultOf(v, fb.Value(), 4) }
+			isE6 := func(v ssa.Value) bool { return p.same(v, e6) }
+			part := func(v ssa.Value) (string, ssa.Value) {
+				switch x := p.resolve(v).(type) {
+				case *ssa.Call:
+					switch p.calleeKey(x.Common()) {
+					case "errorString", "(*testError).Error":
+						return "msg", x.Common().Args[0]
+					case "traceback":
+						return "tb", x.Common().Args[0]
+					}
+				case *ssa.UnOp:
+					if fa, isFA := x.X.(*ssa.FieldAddr); isFA && x.Op == token.MUL && fieldAddrName(fa) == "traceback" {
+						return "tb", fa.X
+					}
+				}
+				return "", nil
+			}
+			have := map[string]bool{}
+			for _, g := range guardsOf(ret.Block()) {
+				bo, isBo := p.resolve(g.Cond).(*ssa.BinOp)
+				if !isBo || !((bo.Op == token.EQL && g.Pol) || (bo.Op == token.NEQ && !g.Pol)) {
+					continue
+				}
+				kx, vx := part(bo.X)
+				ky, vy := part(bo.Y)
+				if kx == "" || kx != ky {
+					continue
+				}
+				if (isFB(vx) && isE6(vy)) || (isFB(vy) && isE6(vx)) {
+					have[kx] = true
+				}
+			}
+			ok = have["msg"] && have["tb"]
+		}
 		r.Check("doCheck#return-failure.err1", ret.Pos(), ok, "failure return carries findBug's error (or one proven sameError to it) as the first error",
 			"a failure return of doCheck carries "+p.expr(e6)+" as first error, which is neither findBug's error nor guarded by sameError with it: the falsification can be reported as nil")
 	}
@@ -889,4 +927,51 @@ func (p *Program) deferredWithResultCell(fn *ssa.Function, par *ssa.Parameter) *
 		host = d.Parent()
 	}
 	return host
+}
+
+func ruleC02R10(r *Run) {
+	p := r.P
+	fn := r.MustFn("checkFailFile")
+	if fn == nil {
+		return
+	}
+	// executions of the replayed test case: run calls, or (a local closure / helper wrapping the run) any call in
+	// checkFailFile that yields a *testError
+	var runs []*ssa.Call
+	for _, rc := range p.runCalls(fn) {
+		runs = append(runs, rc.Call)
+	}
+	if len(runs) == 0 {
+		for _, cs := range p.calls(fn) {
+			c, isCall := cs.Instr.(*ssa.Call)
+			if !isCall || cs.Common.Signature().Results().Len() != 1 {
+				continue
+			}
+			if p.typeStr(cs.Common.Signature().Results().At(0).Type()) == "*testError" {
+				runs = append(runs, c)
+			}
+		}
+	}
+	r.Floor("executions of the replayed test case in checkFailFile", len(runs), 1)
+	n := 0
+	for _, ret := range returnsOf(fn) {
+		if p.nres(ret) < 3 || !isNilConst(p.resolve(p.res(ret, 1))) || !isNilConst(p.resolve(p.res(ret, 2))) {
+			continue
+		}
+		n++
+		facts := p.facts(ret)
+		for _, rc := range runs {
+			if !reachable(rc, ret, nil) {
+				continue
+			}
+			ek := p.expr(rc)
+			passed := holds(facts, ek, "==", "nil") || holds(facts, "(*testError).isInvalidData("+ek+")", "==", "true") || holdsCallTrue(p, ret.Block(), "(*testError).isInvalidData", rc)
+			if l := innermostLoop(rc); l != nil && l.Body[ret.Block()] {
+				r.Fail("checkFailFile#ignore-after-run", ret.Pos(), "this ignore return lies in the loop that executes the replayed test case: it is reached again in a later iteration, after an execution that failed — a test case that failed when replayed is logged as ignored and, if the random cases pass, Check passes")
+				continue
+			}
+			r.Check("checkFailFile#ignore-after-run", ret.Pos(), passed, "the replay is ignored only where its execution passed or was invalid", "checkFailFile can ignore the fail file (return nil errors) after an execution of the test case ("+ek+") that is not known to have passed or been invalid: a falsification found by the replay is dropped")
+		}
+	}
+	r.Floor("ignore returns of checkFailFile", n, 2)
 }
